@@ -59,7 +59,7 @@ def _replay_chunk(args):
         if err:
             kernel_err = (err, inp)
             break
-        classes.add((inp['method'], bool(inp['rm']), bool(inp['useDesc']), inp.get('foldsrc', '')))
+        classes.add((inp['method'], bool(inp['rm']), bool(inp['useDesc']), inp.get('foldsrc', ''), bool(inp.get('unbal'))))
         labs = set(inp['lab']) | set(inp.get('lab2', []))
         if len(labs) >= 2:
             nontriv += 1
@@ -103,7 +103,7 @@ def replay(ctx, r, pid, *, nfloat=0, chunk=150, procs=16, want=None):
     # vacuity guard: every configured method / remove_mean / descriptor / fold-source value was replayed
     if want:
         have = {'methods': {c[0] for c in seen}, 'rms': {c[1] for c in seen}, 'usedescs': {c[2] for c in seen},
-                'foldsrcs': {c[3] for c in seen}}
+                'foldsrcs': {c[3] for c in seen}, 'unbals': {c[4] for c in seen}}
         for k, vals in want.items():
             if k in have and not set(vals) <= have[k]:
                 raise MachineryError(f'vacuous run: configured {k} {sorted(map(str, vals))} but replayed only {sorted(map(str, have[k]))}')
@@ -240,30 +240,62 @@ def run(ctx):
                        'remove_mean semantics as documented: channel mean of each mean pattern removed; no effect '
                        'on correlation / poisson']
     thorough = ctx.tier == 'thorough'
-    W = 16
+    W = 16 if thorough else 8
+    q = not thorough
+    ALL6 = ALL4 + ('crossnobis', 'poisson_cv')
     runs = []
     # (name, cfg kwargs, float-tier rate)
-    runs.append(('single_grid', dict(mode='single', nobs=3, nch=2, nlab=3, vals='Vals012',
+    runs.append(('single_grid', dict(mode='single', nobs=3, nch=2, nlab=3, vals='Vals01' if q else 'Vals012',
                                      methods=('euclidean', 'correlation'), rms=(False, True), usedescs=(True, False),
-                                     extids=(2,), emitmod=1 if thorough else 6), 0))
-    runs.append(('single_cat4', dict(mode='single', nobs=4, nch=2, nlab=3, datasrc='cat', dataids=(1, 2, 3, 4),
+                                     extids=(2,), emitmod=4 if q else 1), 0))
+    runs.append(('single_cat4', dict(mode='single', nobs=4, nch=2, nlab=3, datasrc='cat',
+                                     dataids=(3,) if q else (1, 2, 3, 4),
                                      methods=ALL4, rms=(False, True), usedescs=(True, False), precids=(0, 1, 2),
-                                     priorids=(1, 2), extids=(1, 2, 3), emitmod=1 if thorough else 3), 40))
-    runs.append(('single_perm', dict(mode='single', nobs=3, nch=2, nlab=3, datasrc='cat', dataids=(1, 2),
+                                     priorids=(1, 2), extids=(3,) if q else (1, 2, 3), emitmod=1), 40))
+    runs.append(('single_perm', dict(mode='single', nobs=3, nch=2, nlab=3, datasrc='cat', dataids=(1,) if q else (1, 2),
                                      methods=ALL4, rms=(False, True), usedescs=(True, False), precids=(0, 2),
-                                     priorids=(1, 3), extids=(2,), permlevel=1, agree=True), 0))
-    runs.append(('list_33', dict(mode='list', nobs=3, nobs2=3, nch=2, nlab=3, datasrc='cat', dataids=(1, 2),
+                                     priorids=(1, 3), extids=(2,), permlevel=1, agree=True, emitmod=2 if q else 1), 0))
+    runs.append(('list_33', dict(mode='list', nobs=3, nobs2=3, nch=2, nlab=3, datasrc='cat', dataids=(2,) if q else (1, 2),
                                  methods=ALL4, rms=(False, True), usedescs=(True, False), precids=(0, 1),
-                                 priorids=(1, 2), emitmod=1 if thorough else 4), 60))
-    runs.append(('list_32', dict(mode='list', nobs=3, nobs2=2, nch=2, nlab=3, datasrc='cat', dataids=(2, 3),
+                                 priorids=(1, 2) if thorough else (2,), emitmod=1 if thorough else 6), 60))
+    runs.append(('list_32', dict(mode='list', nobs=3, nobs2=2, nch=2, nlab=3, datasrc='cat', dataids=(2, 3) if thorough else (3,),
                                  methods=('euclidean', 'mahalanobis', 'poisson'), rms=(False, True), usedescs=(True,),
-                                 precids=(0, 2), permlevel=0, agree=True, emitmod=1 if thorough else 2), 0))
+                                 precids=(0, 2), permlevel=0, agree=True, emitmod=2 if q else 1), 0))
     runs.append(('movie_3', dict(mode='movie', nobs=3, nch=2, nlab=3, datasrc='cat', dataids=(1, 2), methods=ALL4,
-                                 usedescs=(True, False), precids=(0, 1), priorids=(1, 2), extids=(2,), nt=3,
-                                 binids=(0, 1, 4, 5) if thorough else (0, 1, 4), emitmod=1 if thorough else 2), 50))
+                                 usedescs=(True, False), precids=(0, 1), priorids=(1, 2) if thorough else (2,), extids=(2,), nt=3,
+                                 binids=(0, 1, 4, 5) if thorough else (0, 4), emitmod=1 if thorough else 2), 50))
     runs.append(('movie_1ch', dict(mode='movie', nobs=3, nch=1, nlab=2, datasrc='cat', dataids=(1,),
                                    methods=('euclidean',), usedescs=(True,), nt=2, binids=(0, 1)), 0))
+    # ---- calc_rdm_movie(unbalanced=True), cross-validated movies, cross-validated / unbalanced lists --------------
+    runs.append(('movie_unb', dict(mode='movie', nobs=3, nch=2, nlab=2, datasrc='cat', dataids=(1, 2), methods=ALL6,
+                                   usedescs=(True, False), precids=(0, 2), priorids=(1, 2), extids=(2,), nt=2,
+                                   binids=(0, 1, 2), nfold=2, foldsrcs=('default',), unbals=(True,),      # (3 observations: no balanced explicit design)
+                                   emitmod=1 if thorough else 2), 30))
+    runs.append(('movie_cv', dict(mode='movie', nobs=4, nch=2, nlab=2, datasrc='cat', dataids=(1, 3) if thorough else (3,),
+                                  methods=('crossnobis', 'poisson_cv'), usedescs=(True,), precids=(0, 2), fprecids=(0, 1),
+                                  priorids=(1, 2), extids=(2,), nt=2, binids=(0, 1, 2), nfold=2,
+                                  foldsrcs=('explicit', 'default'), unbals=(False, True), agree=True), 30))
+    runs.append(('list_cv_def', dict(mode='list', nobs=4, nobs2=4, nch=2, nlab=3, datasrc='cat', dataids=(1,),
+                                     methods=('crossnobis', 'poisson_cv', 'euclidean', 'correlation'), usedescs=(True,),
+                                     precids=(0, 1), priorids=(1,), nfold=2, foldsrcs=('default',), unbals=(False, True) if thorough else (False,),
+                                     agree=True, emitmod=8 if thorough else 1), 30))
+    runs.append(('list_cv_exp', dict(mode='list', nobs=4, nobs2=4, nch=2, nlab=2 if q else 3, datasrc='cat', dataids=(4,),
+                                     methods=('crossnobis', 'poisson_cv'), usedescs=(True,), precids=(0,), priorids=(2,),
+                                     nfold=2, foldsrcs=('explicit',), unbals=(False, True), emitmod=2 if q else 6), 60))
+    runs.append(('new_perm', dict(mode='movie', nobs=4, nch=2, nlab=2, datasrc='cat', dataids=(1,),
+                                  methods=('crossnobis', 'correlation') if q else ('crossnobis', 'poisson_cv', 'correlation'),
+                                  usedescs=(True,), precids=(0,), priorids=(1,), extids=(2,), nt=2, binids=(0, 1), nfold=2,
+                                  foldsrcs=('explicit',) if q else ('explicit', 'default'),
+                                  unbals=(True, False), permlevel=1, agree=True, emitmod=4), 0))
     if thorough:
+        runs.append(('list_perm', dict(mode='list', nobs=4, nobs2=2, nch=2, nlab=2, datasrc='cat', dataids=(1,),
+                                       methods=('crossnobis', 'poisson_cv', 'euclidean'), usedescs=(True,), precids=(0,),
+                                       priorids=(1,), nfold=2, foldsrcs=('explicit', 'default'), unbals=(True, False),
+                                       permlevel=1, agree=True, emitmod=5), 0))
+        runs.append(('movie_cv3', dict(mode='movie', nobs=4, nch=2, nlab=2, datasrc='cat', dataids=(2, 4),
+                                       methods=ALL6, usedescs=(True,), precids=(0, 3), fprecids=(0, 2), priorids=(3,),
+                                       extids=(3,), nt=3, binids=(0, 2, 3, 5), nfold=3, foldsrcs=('explicit', 'default'),
+                                       unbals=(False, True), emitmod=8), 40))
         runs.append(('single_grid4', dict(mode='single', nobs=4, nch=2, nlab=3, vals='Vals012', methods=('euclidean',),
                                           rms=(False,), usedescs=(True,), extids=(2,), emitmod=10,
                                           invs=['Symmetric', 'ZeroIffEqualMeans', 'LabelOrderSorted', 'OneRowPerLabel',
@@ -289,16 +321,23 @@ def run(ctx):
     ctx.exhaustive = False       # the enumeration is exhaustive, the replay of the large runs is a seeded sample
     total = 0
     first = True
-    # vacuity guard: every stage action and every transformation is taken (TLC -coverage on tiny
-    # configurations: the coverage output of long runs is too large to parse)
-    for mode, extra, acts in (('single', dict(nobs=2), ['Average', 'Kernel', 'Build', 'SortAlpha', 'Single',
-                                                        'PermuteRows', 'PermuteChannels']),
-                              ('list', dict(nobs=2, nobs2=2), ['ListBranch', 'PermuteRows']),
-                              ('movie', dict(nobs=2, nt=2, binids=(0, 1)), ['Movie', 'PermuteRows'])):
+    # vacuity guard: every stage action and every transformation is taken (TLC -coverage on tiny configurations:
+    # the coverage output of long runs is too large to parse).  Thorough tier only - the quick tier relies on the
+    # guard in replay() that every configured method / option / fold source / estimator occurs among the vectors.
+    covs = [('single', dict(nobs=2), ['Average', 'Kernel', 'Build', 'SortAlpha', 'Single', 'PermuteRows', 'PermuteChannels']),
+            ('list', dict(nobs=2, nobs2=2), ['ListBranch', 'PermuteRows']),
+            ('movie', dict(nobs=2, nt=2, binids=(0, 1)), ['Movie', 'PermuteRows'])] if thorough else []
+    for mode, extra, acts in covs:
         r = ctx.tlc('MC_CalcRdm', C.cfg(mode=mode, nch=2, nlab=2, datasrc='cat', dataids=(1,), methods=('euclidean', 'poisson'),
                                         usedescs=(True, False), permlevel=1, emit=False, **extra),
                     name=f'cov_{mode}', workers=1, coverage=True, timeout=900)
         ctx.require_coverage(r, acts)
+    if thorough:
+        r = ctx.tlc('MC_CalcRdm', C.cfg(mode='movie', nobs=2, nch=2, nlab=1, datasrc='cat', dataids=(1,), nt=2,
+                                        methods=('euclidean', 'crossnobis'), usedescs=(True,), nfold=2, foldsrcs=('explicit',),
+                                        unbals=(False, True), permlevel=1, emit=False),
+                    name='cov_new', workers=1, coverage=True, timeout=900)
+        ctx.require_coverage(r, ['PartialCv', 'PartialUnbalanced', 'Movie', 'PermuteRows'])
     for name, kw, nfloat in runs:
         r = ctx.tlc('MC_CalcRdm', C.cfg(**kw), name=name, workers=W, timeout=1700)
         if not r.n_emitted:
@@ -310,5 +349,5 @@ def run(ctx):
         ctx.sample({'run': name, 'in': v['in'], 'expected': v['out']}, cap=8)
         total += replay(ctx, r, PID, nfloat=nfloat if thorough else nfloat * 3, want=kw)
     ctx.extra['vectors_replayed'] = total
-    n = record_and_validate(ctx, PID, ['single', 'list', 'movie'], 3000 if thorough else 360)
+    n = record_and_validate(ctx, PID, ['single', 'list', 'movie', 'moviex', 'listx'], 3000 if thorough else 300)
     ctx.extra['recorded_executions_validated'] = n
